@@ -573,7 +573,8 @@ def one_case(ctx, rng, idx, out):
             # of its members at exactly the set-item categories, and stable from the second trip on
             want_p = setlist_py(payload)
             if not typed_payload_eq(dj2.diff, want_p):
-                ctx.fail(dict(jcase, stage="payload-relation", loaded=repr(dj2.diff), expected=repr(want_p)),
+                ctx.fail(dict(jcase, stage="payload-relation", loaded=repr(dj2.diff), expected=repr(want_p),
+                              nonetype_only=_nonetype_only(want_p, dj2.diff)),
                          "the JSON-reloaded payload is not the original with its set items as lists")
             else:
                 try:
@@ -1177,7 +1178,7 @@ def _m_k12(case):
 
 
 def _m_nonetype(case):
-    return case.get("path") == "json" and case.get("stage") in ("payload", "second dump") and case.get("nonetype_only") is True
+    return case.get("path") == "json" and case.get("stage") in ("payload", "second dump", "payload-relation") and case.get("nonetype_only") is True
 
 
 MATCHERS = {"K12": _m_k12, "C14-JSON-NONETYPE": _m_nonetype}
